@@ -1,6 +1,85 @@
-import MotoModel.Model.DiskCli
-import MotoModel.Spec.Dos
+/-
+  C06 — adding files to an existing disk image never disturbs what is already there.
+  (first layer: sector-level frame of the model's writes; adding nothing is the identity)
+-/
+import MotoModel.Proofs.DiskSector
+import MotoModel.Props.C07
 namespace Moto.C06
 open Moto Moto.Disk
-theorem placeholder : computeRequiredSlots 0 255 = (0, 255) := rfl
+
+/-- **C06 (one sector per write)**: a sector write changes no other sector of the side -/
+theorem write_touches_one_sector (sd : Side) (t s t' s' : Nat) (v : Bytes) (h : idx t s ≠ idx t' s') :
+    getSector (putSector sd t s v) t' s' = getSector sd t' s' := putSector_other sd t s t' s' v h
+
+/-- data sectors of block `b` are the flat sectors `8 b .. 8 b + 7`: blocks never overlap, and the
+    table / catalog (flat 321..335) lie in blocks 40 and 41 -/
+theorem block_sectors_flat (b s : Nat) (_hs : s < 8) : idx (blockTrack b) (blockFirstSector b + s) = 8 * b + s := by
+  unfold idx blockTrack blockFirstSector
+  have : Gen.Disk.sectorsPerTrack = 16 := rfl
+  rw [this]; omega
+
+theorem table_and_catalog_in_blocks_40_41 (s : Nat) (h1 : 1 ≤ s) (h16 : s < 16) :
+    idx batTrack s = 8 * 40 + s ∧ (s < 8 ∨ idx batTrack s = 8 * 41 + (s - 8)) := by
+  unfold idx batTrack
+  have : Gen.Disk.sectorsPerTrack = 16 := rfl
+  rw [this]; omega
+
+/-- **C06 (table bytes)**: updating the table rewrites the status bytes 1..160 of its sector and
+    keeps byte 0 and bytes 161..255 — whoever wrote them -/
+theorem table_sector_frame (sd : Side) (bat : List Nat) (hw : C11.WFSide sd) (hb : bat.length = 160) :
+    getSector (setBat sd bat) batTrack batSector
+      = (getSector sd batTrack batSector).take 1 ++ bat ++ (getSector sd batTrack batSector).drop 161 :=
+  setBat_sector sd bat hw hb
+
+/-- … and statuses of blocks outside the new chain keep their value -/
+theorem statuses_outside_new_chain (bat chain : List Nat) (u x : Nat) (hx : x ∉ chain) :
+    (linkChain bat chain u).getD x 0 = bat.getD x 0 := linkChain_other chain bat u x 0 hx
+
+theorem injTail_img (fuel : Nat) : ∀ (st st' : Inj), injTail fuel st = .ok st' → st'.img = st.img := by
+  induction fuel with
+  | zero => intro st st' h; simp [injTail] at h; rw [← h]
+  | succ f ih =>
+    intro st st' h
+    simp only [injTail] at h
+    split at h
+    · cases hu : usageOfSide st.img (st.cur + 1) with
+      | error e => rw [hu] at h; cases h
+      | ok u =>
+        rw [hu] at h; dsimp only at h
+        have := ih _ st' h
+        simpa using this
+    · cases h; rfl
+
+/-- **C06 (adding nothing)**: with an empty batch the model saves the very sides it loaded -/
+theorem add_nothing_keeps_sides (w : Tape.World) (verbose : Bool) (img : Image) (st : Inj)
+    (h : performCore w verbose img [] = .ok st) : st.img = img := by
+  unfold performCore at h
+  simp only [injLoop] at h
+  split at h
+  · cases hu : usageOfSide img 0 with
+    | error e => rw [hu] at h; cases h
+    | ok u =>
+      rw [hu] at h
+      simp only at h
+      cases ht : injTail 4 _ with
+      | error e => rw [ht] at h; cases h
+      | ok st2 => rw [ht] at h; cases h; exact injTail_img 4 _ _ ht
+  · cases h; rfl
+
+/-- hence a no-op add of a valid emulator image rewrites it byte for byte (with C11's load/save identity) -/
+theorem add_nothing_identity_fd (w : Tape.World) (verbose : Bool) (archive : Str) (raw : Bytes) (tape : Bytes)
+    (hlen : raw.length = 327680 * 4) (h : (add .fd w verbose archive raw []).writes = [(archive, tape)]) : tape = raw := by
+  unfold add at h
+  obtain ⟨img, hl, hn⟩ := C07.load_fd_sides raw 4 (by omega) hlen
+  rw [hl] at h
+  unfold performOn at h
+  simp only [hn, show ¬ (4 < 4) by omega, if_false] at h
+  cases hp : performCore w verbose img [] with
+  | error e => rw [hp] at h; obtain ⟨e1, o⟩ := e; simp at h
+  | ok st =>
+    rw [hp] at h
+    simp only [List.cons.injEq, Prod.mk.injEq, and_true, true_and] at h
+    rw [← h, add_nothing_keeps_sides w verbose img st hp]
+    exact C11.load_save_fd raw img 4 (by omega) hlen hl
+
 end Moto.C06
